@@ -13,7 +13,8 @@
 (*                 COLFULL (A1:C1048576)                                    *)
 (*   [ss]          sheet part: none / plain / lower / quoted / quotedlower  *)
 (*                 (sheet 3 has an apostrophe in its title: written doubled *)
-(*                 inside quotes, with and without a workbook part)         *)
+(*                 inside quotes, with and without a workbook part; sheet 4 *)
+(*                 is titled TRUE - only quotes keep it from being a logical)*)
 (*   [bs]          workbook part: none / file / dirfile / id                *)
 (*   [hc, hr]      the host cell (for REL)                                  *)
 (* Denote(sp) is the triple <<bk, sh, normalised rectangle>>; two spellings *)
@@ -70,7 +71,7 @@ NoSp == [style |-> "-"]
 Init ==
   \/ /\ mode = "col" /\ col \in 1..MaxCol /\ sp = NoSp
   \/ /\ mode = "sp" /\ col = 0
-     /\ sp \in {x \in [bk : 0..2, sh : 0..3, c1 : Cols, r1 : Rows, c2 : Cols, r2 : Rows,
+     /\ sp \in {x \in [bk : 0..2, sh : 0..4, c1 : Cols, r1 : Rows, c2 : Cols, r2 : Rows,
                        style : Styles, ss : SheetStyles, bs : BookStyles,
                        hc : {h[1] : h \in Hosts}, hr : {h[2] : h \in Hosts}] :
                  /\ RectOK(x.c1, x.r1, x.c2, x.r2) /\ StyleOK(x) /\ QualOK(x)
